@@ -1240,15 +1240,15 @@ class RenameFrame(Elemwise):
         if isinstance(parent, Projection) and isinstance(
             self.operand("columns"), Mapping
         ):
-            reverse_mapping = {val: key for key, val in self.operand("columns").items()}
+            mapping = self.operand("columns")
 
             columns = determine_column_projection(self, parent, dependents)
             columns = _convert_to_list(columns)
+            # Keep the input columns whose renamed label is requested; keys of
+            # the mapping that are not columns of the frame are ignored
             columns = [
-                reverse_mapping[col] if col in reverse_mapping else col
-                for col in columns
+                col for col in self.frame.columns if mapping.get(col, col) in columns
             ]
-            columns = [col for col in self.frame.columns if col in columns]
             if columns == self.frame.columns:
                 return
 
